@@ -50,7 +50,9 @@ Step ==
                 /\ lastobs' = [i \in Inst |-> NoObs] /\ saved' = [bytes |-> 0 - 1, act |-> NONE] /\ seen' = {} /\ csrc' = NONE /\ xload' = 999 /\ rop' = ""
                 /\ UNCHANGED bad
          [] e.e = "mark" ->
-                /\ mode' = e.k /\ UNCHANGED <<ref, pos, cmpi, nolog, lastobs, saved, seen, csrc, xload, rop, bad>>
+                \* "twins": instance 1 is the same program built without the log interface, fed the same calls and decisions
+                /\ mode' = (IF e.k = "twins" THEN "lanes" ELSE e.k) /\ nolog' = (IF e.k = "twins" THEN {1} ELSE nolog)
+                /\ UNCHANGED <<ref, pos, cmpi, lastobs, saved, seen, csrc, xload, rop, bad>>
          [] e.e \in {"call", "cb", "ret"} ->
                 LET i == e.i
                     \* ---- lanes
